@@ -115,13 +115,18 @@ def sumV : List Vote → Int
 
 /-! ## context checks (evaluated on the pre-block state) -/
 
-/-- `checkDPoSV2Content`: candidates / lock time are examined per vote in order, then the total. -/
-def voteLoop (h lock minLock maxLock : Nat) (bad : Option Nat) : Nat → List Int → Option String
-  | _, [] => none
-  | i, _ :: t =>
+/-- largest `Fixed64` (int64) value -/
+def maxI64 : Int := 9223372036854775807
+
+/-- `checkDPoSV2Content`: candidates / lock time are examined per vote in order, the running total must fit a
+    Fixed64 (the overflow guard of the `fix:` commit), then the total is compared with the free rights. -/
+def voteLoop (h lock minLock maxLock : Nat) (bad : Option Nat) : Nat → Int → List Int → Option String
+  | _, _, [] => none
+  | i, sum, v :: t =>
     if bad = some i then some "cand"
     else if lock ≤ h ∨ lock - h < minLock ∨ lock - h > maxLock then some "lock"
-    else voteLoop h lock minLock maxLock bad (i + 1) t
+    else if sum + v > maxI64 then some "overflow"
+    else voteLoop h lock minLock maxLock bad (i + 1) (sum + v) t
 
 /-- `none` = accepted; `some reason` = rejected. -/
 def check (P : Params) (h : Nat) (s0 : State) : Tx → Option String
@@ -143,7 +148,7 @@ def check (P : Params) (h : Nat) (s0 : State) : Tx → Option String
     match get k s0.stakes with
     | none => some "norights"
     | some t =>
-      match voteLoop h lock P.minLock P.maxLock bad 0 vs with
+      match voteLoop h lock P.minLock P.maxLock bad 0 0 vs with
       | some e => some e
       | none => if sumI vs > t.rights - t.used then some "notenough" else none
   | .renew k oldLock amount newLock born =>
